@@ -77,7 +77,7 @@ def modulus_tol(style, val, cond, smax, cmax, dz=0.0):
     d(1/K_R) <= 10 dS and dK_R <= 10 K_R^2 dS - the cancellation in that sum (near-incompressible solids) is what
     makes the Reuss moduli sensitive like cond^2.  dz: relative perturbation of the entries of C themselves."""
     dS = (1e-13 * cond + 40 * cond * dz) * smax
-    v = (1e-13 + 10 * dz) * cmax
+    v = (1e-13 * cond + 10 * dz) * cmax        # cond: a stiffness entered as a compliance is inv(S), known to cond*eps
     r = 10 * val * val * dS + 1e-13 * abs(val)
     return {'Voigt': v, 'Reuss': r, 'Hill': v + r}[style]
 
